@@ -37,3 +37,19 @@ func init() {
 func init() {
 	properties = append(properties, &Property{ID: "DBGD", Rules: []string{"DUR.APPEND", "DUR.SYNCERR", "DUR.ACK", "ATOMIC.APPEND", "DUR.REMOVE", "DUR.PUBLISH", "DUR.SIB", "DUR.TORN", "LEXNUM.WAL", "LEXNUM.SORT"}})
 }
+
+func init() {
+	properties = append(properties, &Property{ID: "DBGL", Rules: []string{"LIVE.ORDER", "LIVE.WAIT", "LIVE.BALANCE", "LIVE.PAIR"}})
+}
+
+func init() {
+	properties = append(properties, &Property{ID: "DBGC", Rules: []string{"CODEC.POOL", "CODEC.SEQ", "CODEC.NARROW", "CODEC.PREFIX"}})
+}
+
+func init() {
+	properties = append(properties, &Property{ID: "DBGT", Rules: []string{"SNAP.TS", "SNAP.BEGIN", "SNAP.COMMIT", "SNAP.GC", "SNAP.DONE", "SER.SECTION", "SER.TS", "CONF.READFP", "CONF.WRITEFP", "CONF.ORDER", "CONF.REFUSED", "CONF.WINDOW", "TRACE.CONFINE", "TRACE.UPDATE", "TRACE.MISUSE"}})
+}
+
+func init() {
+	properties = append(properties, &Property{ID: "DBGW", Rules: []string{"WM.WRITER", "WM.MONO", "WM.ADVANCE", "WM.SIGN", "WM.WAIT"}})
+}
